@@ -64,6 +64,7 @@ inductive Elem where
   | reservedName (name : String) (ident : Bool)
   | value (name : String) (number : Int)
   | allowAlias (b : Bool)
+  | msgSet (b : Bool)      -- `option message_set_wire_format = true|false;` at this position
   | rpc (name inTy outTy : String) (cs ss : Bool)
   deriving Repr, Inhabited
 
@@ -192,6 +193,8 @@ def parseRec : List String → Option (Rec × List String)
   | "v" :: name :: num :: t => num.toInt?.map (fun n => (.elem .plain (.value name n), t))
   | "aa" :: b :: t => (match b with | "t" => some true | "f" => some false | _ => none).map
       (fun b => (.elem .plain (.allowAlias b), t))
+  | "ms" :: b :: t => (match b with | "t" => some true | "f" => some false | _ => none).map
+      (fun b => (.elem .plain (.msgSet b), t))
   | "rpc" :: name :: i :: o :: cs :: ss :: t => do
     let cs ← parseBit cs
     let ss ← parseBit ss
